@@ -343,6 +343,7 @@ func Finish(prop, tier string, seed int, rs []*R, findings []Finding, verifDir s
 		fmt.Printf("VIOLATION property=%s replay=%s\n", prop, replay)
 		return 1
 	}
+	os.Remove(filepath.Join(evDir, prop+".replay.json")) // a replay file of an earlier failing run would be stale now
 	return 0
 }
 
